@@ -189,6 +189,8 @@ def _decoder(ctx, rid, f):
         return None
 
     def dec(b):
+        if b is None:
+            return (None, None)  # a module whose byte the evaluator does not know
         if b not in table:
             m = ("adt", "module::Module", 0, "Module", (("int", "u8", b),))
             t = F.run(fty.path, [m])
@@ -925,7 +927,9 @@ def _gate_job(arg):
                         pe.summaries["encode::best_encoding"] = lambda pe_, st, a, t, m=auto: mk_enum(MODE, m)
                     else:
                         # a forced mode must win over whatever detection would say: let detection say something else
-                        other = "Numeric" if mode != "Numeric" else "Byte"
+                        # (only answers consistent with the property's quantifier: the input is in the forced mode's alphabet, so
+                        # detection can only say something at least as compact - here: all digits)
+                        other = "Numeric"
                         pe.summaries["encode::best_encoding"] = lambda pe_, st, a, t, m=other: mk_enum(MODE, m)
                     args = [("ref", ("const", ("symvec", n))), lval,
                             _opt(None if forced is None else mk_enum(VERSION, "V%02d" % forced)), mval, _opt(None)]
